@@ -382,6 +382,9 @@ func (e *SpecEnv) index(x *ast.IndexExpr) T {
 	if a.Sort == SBytes {
 		return App(SInt, "bat", a, i)
 	}
+	if a.Sort == "(Array Int Bytes)" {
+		return Select(a, i, SBytes)
+	}
 	if strings.HasPrefix(a.Sort, "(Array Int ") {
 		es := strings.TrimSuffix(strings.TrimPrefix(a.Sort, "(Array Int "), ")")
 		r := Select(a, i, es)
@@ -743,7 +746,15 @@ func (ex *Exec) JoinTerm(parts []T, sep string) T {
 	if len(parts) > 4 {
 		sfail("join of more than 4 parts")
 	}
-	id := IntLit(ex.Lits.ID("join:"+sep)*8 + int64(len(parts)))
+	var id T
+	switch sep {
+	case "/":
+		id = IntLit(1000 + int64(len(parts)))
+	case "_":
+		id = IntLit(2000 + int64(len(parts)))
+	default:
+		id = IntLit(ex.Lits.ID("join:"+sep)*8 + int64(len(parts)))
+	}
 	args := []T{id}
 	args = append(args, parts...)
 	for len(args) < 5 {
